@@ -358,4 +358,242 @@ theorem hull_laws : JoinLaws hull none where
     intro a
     rcases a with _ | ⟨a1, a2⟩ <;> simp [hull]
 
+/-! ### arbitrary tasks: compositional laws suffice -/
+
+/-- The three observable laws of a task on `[0,len)`: an empty range does nothing, a 2-way split equals the
+    unsplit call (whatever thread ids the pieces get), two disjoint non-empty sub-ranges may be swapped.
+    These are exactly the two families of scripts the harness runs (2-way split; swap). -/
+structure Compositional (t : Task σ) (len : Nat) : Prop where
+  nil : ∀ s tid h, t s s tid h = h
+  split : ∀ s m e tid tid' h, s ≤ m → m ≤ e → e ≤ len → t s e tid h = t m e tid' (t s m tid h)
+  comm : ∀ a b c d tid tid' h, a < b → b ≤ c → c < d → d ≤ len →
+    t c d tid' (t a b tid h) = t a b tid (t c d tid' h)
+
+theorem task_tid_irrelevant (t : Task σ) (len : Nat)
+    (hnil : ∀ s tid h, t s s tid h = h)
+    (hsplit : ∀ s m e tid tid' h, s ≤ m → m ≤ e → e ≤ len → t s e tid h = t m e tid' (t s m tid h))
+    (s e tid tid' : Nat) (h : σ) (h1 : s ≤ e) (h2 : e ≤ len) : t s e tid h = t s e tid' h := by
+  rw [hsplit s s e tid tid' h (Nat.le_refl s) h1 h2, hnil]
+
+/-- `rs` covers `[a,b)` exactly once, nothing below `a`, nothing beyond `b`. -/
+def IsPartitionOn (a b : Nat) (rs : List Range) : Prop :=
+  (∀ r ∈ rs, r.start ≤ r.stop ∧ r.stop ≤ b) ∧ (∀ i, a ≤ i → i < b → coverCount rs i = 1) ∧
+    (∀ i, i < a → coverCount rs i = 0)
+
+theorem isPartitionOn_of_isPartition (len : Nat) (rs : List Range) (hp : IsPartition len rs) :
+    IsPartitionOn 0 len rs :=
+  ⟨hp.1, fun i _ hi => hp.2 i hi, fun i hi => absurd hi (Nat.not_lt_zero i)⟩
+
+theorem coverCount_cons (r : Range) (rs : List Range) (i : Nat) :
+    coverCount (r :: rs) i = (if r.covers i = true then 1 else 0) + coverCount rs i := by
+  unfold coverCount
+  by_cases hc : r.covers i = true
+  · rw [List.filter_cons, if_pos hc, if_pos hc, List.length_cons]; omega
+  · rw [List.filter_cons, if_neg hc, if_neg hc]; omega
+
+theorem coverCount_perm (rs rs' : List Range) (hperm : rs.Perm rs') (i : Nat) :
+    coverCount rs i = coverCount rs' i := by
+  unfold coverCount
+  exact (hperm.filter _).length_eq
+
+theorem coverCount_pos_of_mem (rs : List Range) (r : Range) (hr : r ∈ rs) (i : Nat) (hc : r.covers i = true) :
+    1 ≤ coverCount rs i := by
+  unfold coverCount
+  have : r ∈ rs.filter fun r => r.covers i := List.mem_filter.mpr ⟨hr, hc⟩
+  exact List.length_pos_of_mem this
+
+theorem coverCount_two_of_mem (rs : List Range) (x y : Range) (hx : x ∈ rs) (hy : y ∈ rs) (hxy : x ≠ y)
+    (i : Nat) (hcx : x.covers i = true) (hcy : y.covers i = true) : 2 ≤ coverCount rs i := by
+  have hp := List.perm_cons_erase hx
+  rw [coverCount_perm _ _ hp, coverCount_cons, if_pos hcx]
+  have : y ∈ rs.erase x := (List.mem_erase_of_ne (fun e => hxy e.symm)).mpr hy
+  have := coverCount_pos_of_mem _ y this i hcy
+  omega
+
+theorem covers_iff (r : Range) (i : Nat) : r.covers i = true ↔ r.start ≤ i ∧ i < r.stop := by
+  simp [Range.covers]
+
+theorem isPartitionOn_le_one (a b : Nat) (rs : List Range) (hp : IsPartitionOn a b rs) (i : Nat) :
+    coverCount rs i ≤ 1 := by
+  by_cases h1 : i < a
+  · have := hp.2.2 i h1; omega
+  · by_cases h2 : i < b
+    · have := hp.2.1 i (by omega) h2; omega
+    · have := coverCount_of_ge b rs hp.1 i (by omega); omega
+
+/-- Two calls of a family of ranges in which no index is covered twice commute. -/
+theorem range_comm (t : Task σ) (len : Nat)
+    (hnil : ∀ s tid h, t s s tid h = h)
+    (hcomm : ∀ a b c d tid tid' h, a < b → b ≤ c → c < d → d ≤ len →
+      t c d tid' (t a b tid h) = t a b tid (t c d tid' h))
+    (rs : List Range) (hw : ∀ r ∈ rs, r.start ≤ r.stop ∧ r.stop ≤ len) (hc : ∀ i, coverCount rs i ≤ 1)
+    (x : Range) (hx : x ∈ rs) (y : Range) (hy : y ∈ rs) (z : σ) :
+    t y.start y.stop y.tid (t x.start x.stop x.tid z) = t x.start x.stop x.tid (t y.start y.stop y.tid z) := by
+  by_cases hxy : x = y
+  · subst hxy; rfl
+  obtain ⟨hx1, hx2⟩ := hw x hx
+  obtain ⟨hy1, hy2⟩ := hw y hy
+  by_cases hxe : x.start = x.stop
+  · rw [hxe, hnil, hnil]
+  by_cases hye : y.start = y.stop
+  · rw [hye, hnil, hnil]
+  have hdis : ∀ i, ¬ (x.covers i = true ∧ y.covers i = true) := by
+    rintro i ⟨h1, h2⟩
+    have := coverCount_two_of_mem rs x y hx hy hxy i h1 h2
+    have := hc i
+    omega
+  by_cases h1 : x.stop ≤ y.start
+  · exact hcomm x.start x.stop y.start y.stop x.tid y.tid z (by omega) h1 (by omega) hy2
+  by_cases h2 : y.stop ≤ x.start
+  · exact (hcomm y.start y.stop x.start x.stop y.tid x.tid z (by omega) h2 (by omega) hx2).symm
+  exfalso
+  apply hdis (max x.start y.start)
+  rw [covers_iff, covers_iff]
+  omega
+
+theorem runRanges_all_empty (t : Task σ) (hnil : ∀ s tid h, t s s tid h = h) (rs : List Range)
+    (he : ∀ r ∈ rs, r.start = r.stop) (h : σ) : runRanges t rs h = h := by
+  induction rs generalizing h with
+  | nil => rfl
+  | cons r rs ih =>
+    simp only [runRanges, List.foldl_cons] at *
+    rw [he r List.mem_cons_self, hnil]
+    exact ih (fun r' hr' => he r' (List.mem_cons_of_mem _ hr')) h
+
+theorem runRanges_partitionOn (t : Task σ) (len : Nat)
+    (hnil : ∀ s tid h, t s s tid h = h)
+    (hsplit : ∀ s m e tid tid' h, s ≤ m → m ≤ e → e ≤ len → t s e tid h = t m e tid' (t s m tid h))
+    (hcomm : ∀ a b c d tid tid' h, a < b → b ≤ c → c < d → d ≤ len →
+      t c d tid' (t a b tid h) = t a b tid (t c d tid' h))
+    (b : Nat) (hb : b ≤ len) (n : Nat) :
+    ∀ (rs : List Range), rs.length = n → ∀ (a : Nat) (h : σ), a ≤ b → IsPartitionOn a b rs →
+      runRanges t rs h = t a b 0 h := by
+  induction n with
+  | zero =>
+    intro rs hn a h hab hp
+    have : rs = [] := List.length_eq_zero_iff.mp hn
+    subst this
+    have : a = b := by
+      by_contra hne
+      have := hp.2.1 a (Nat.le_refl a) (by omega)
+      simp [coverCount] at this
+    subst this
+    rw [hnil]; rfl
+  | succ n ih =>
+    intro rs hn a h hab hp
+    by_cases hab' : a = b
+    · subst hab'
+      rw [hnil]
+      apply runRanges_all_empty t hnil
+      intro r hr
+      obtain ⟨h1, h2⟩ := hp.1 r hr
+      by_contra hne
+      have hc : r.covers r.start = true := by rw [covers_iff]; omega
+      have := coverCount_pos_of_mem rs r hr r.start hc
+      have := hp.2.2 r.start (by omega)
+      omega
+    · have hlt : a < b := by omega
+      -- the unique range covering `a`
+      have h1 := hp.2.1 a (Nat.le_refl a) hlt
+      have hex : ∃ r ∈ rs, r.covers a = true := by
+        unfold coverCount at h1
+        have : 0 < (rs.filter fun r => r.covers a).length := by omega
+        obtain ⟨r, hr⟩ := List.exists_mem_of_length_pos this
+        exact ⟨r, (List.mem_filter.mp hr).1, (List.mem_filter.mp hr).2⟩
+      obtain ⟨r, hr, hra⟩ := hex
+      have hra' := (covers_iff r a).mp hra
+      obtain ⟨hw1, hw2⟩ := hp.1 r hr
+      have hstart : r.start = a := by
+        by_contra hne
+        have hc : r.covers r.start = true := by rw [covers_iff]; omega
+        have := coverCount_pos_of_mem rs r hr r.start hc
+        have := hp.2.2 r.start (by omega)
+        omega
+      have hperm := List.perm_cons_erase hr
+      have hwl : ∀ r ∈ rs, r.start ≤ r.stop ∧ r.stop ≤ len := fun r' hr' =>
+        ⟨(hp.1 r' hr').1, Nat.le_trans (hp.1 r' hr').2 hb⟩
+      have e1 : runRanges t rs h = runRanges t (r :: rs.erase r) h := by
+        unfold runRanges
+        apply List.Perm.foldl_eq' hperm
+        intro x hx y hy z
+        exact range_comm t len hnil hcomm rs hwl (isPartitionOn_le_one a b rs hp) x hx y hy z
+      have hp' : IsPartitionOn r.stop b (rs.erase r) := by
+        refine ⟨fun r' hr' => hp.1 r' (List.mem_of_mem_erase hr'), ?_, ?_⟩
+        · intro i hi1 hi2
+          have := hp.2.1 i (by omega) hi2
+          rw [coverCount_perm _ _ hperm, coverCount_cons] at this
+          have hn : ¬ r.covers i = true := by rw [covers_iff]; omega
+          rw [if_neg hn] at this
+          omega
+        · intro i hi
+          by_cases hia : i < a
+          · have := hp.2.2 i hia
+            rw [coverCount_perm _ _ hperm, coverCount_cons] at this
+            omega
+          · have := hp.2.1 i (by omega) (by omega)
+            rw [coverCount_perm _ _ hperm, coverCount_cons] at this
+            have hc : r.covers i = true := by rw [covers_iff]; omega
+            rw [if_pos hc] at this
+            omega
+      have hlen : (rs.erase r).length = n := by
+        rw [List.length_erase_of_mem hr, hn]; rfl
+      rw [e1]
+      simp only [runRanges, List.foldl_cons]
+      have := ih (rs.erase r) hlen r.stop (t r.start r.stop r.tid h) hw2 hp'
+      simp only [runRanges] at this
+      rw [this, hstart]
+      rw [hsplit a r.stop b 0 0 h (by omega) hw2 hb]
+      rw [task_tid_irrelevant t len hnil hsplit a r.stop r.tid 0 h (by omega) (by omega)]
+
+
+/-! ### `Task.ofStep` of a footprint-respecting step is compositional -/
+
+theorem exec_comm_ranges {step : Nat → Heap α → Heap α} {w : Nat → Addr} {r : Nat → List Addr}
+    (fp : Footprint step w r) (len : Nat) (hna : NoCrossAlias len w r)
+    (a b c d : Nat) (hb : b ≤ len) (hd : d ≤ len) (h : Heap α) :
+    exec step c d (exec step a b h) = exec step a b (exec step c d h) := by
+  rw [exec_eq_runList step c d, exec_eq_runList step a b, exec_eq_runList step a b, exec_eq_runList step c d,
+    ← runList_append, ← runList_append]
+  apply runList_perm fp len hna _ _ List.perm_append_comm
+  intro i hi
+  rcases List.mem_append.mp hi with hi | hi <;> rw [List.mem_range'_1] at hi <;> omega
+
+theorem compositional_ofStep {step : Nat → Heap α → Heap α} {w : Nat → Addr} {r : Nat → List Addr}
+    (fp : Footprint step w r) (len : Nat) (hna : NoCrossAlias len w r) :
+    Compositional (Task.ofStep step) len where
+  nil := fun s _ h => exec_empty step s s (Nat.le_refl s) h
+  split := fun s m e _ _ h h1 h2 _ => exec_split' step s m e h1 h2 h
+  comm := fun a b c d _ _ h _ hbc hcd hd => exec_comm_ranges fp len hna a b c d (by omega) hd h
+
+/-! ### the two-function reduction (`extendBy (point)` in the task, `extendBy (box)` in the merge) -/
+
+section twofun
+variable {π : Type}
+
+theorem reduceTask2_eq (extP : β → π → β) (extB : β → β → β) (ofPt : π → β)
+    (hpt : ∀ b p, extP b p = extB b (ofPt p)) (pts : Nat → π) :
+    reduceTask2 extP pts = reduceTask extB (fun p => ofPt (pts p)) := by
+  funext s e tid
+  unfold reduceTask2 reduceTask
+  congr 1
+  funext p P t
+  simp only [reduceStep2, reduceStep, hpt]
+
+/-- If extending by a point is extending by the degenerate box of that point, the literal two-function
+    reduction is the one-function reduction on degenerate boxes. -/
+theorem boxExtendBy2_eq_boxExtendBy (extP : β → π → β) (extB : β → β → β) (ofPt : π → β)
+    (hpt : ∀ b p, extP b p = extB b (ofPt p)) (empty : β) (pool : Option Pool) (pts : Nat → π) (len : Nat) (box : β) :
+    boxExtendBy2 extP extB empty pool pts len box =
+      boxExtendBy extB empty pool (fun p => ofPt (pts p)) len box := by
+  unfold boxExtendBy2 boxExtendBy
+  rw [reduceTask2_eq extP extB ofPt hpt]
+
+theorem foldPoints2_eq_foldPoints (extP : β → π → β) (extB : β → β → β) (ofPt : π → β)
+    (hpt : ∀ b p, extP b p = extB b (ofPt p)) (pts : Nat → π) (len : Nat) (box : β) :
+    foldPoints2 extP pts len box = foldPoints extB (fun p => ofPt (pts p)) len box := by
+  unfold foldPoints2 foldPoints
+  simp only [hpt]
+
+end twofun
+
 end ImathVerif.Dispatch
